@@ -324,7 +324,7 @@ fn check_system(eqs: &[(T, T)], t: &mut Tape) -> (u64, Option<Failure>) {
 // (b) and (c): programs
 
 /// Injects one unambiguous kind error; returns its description, or None if no site was found.
-fn inject_kind_error(prog: &mut Program, t: &mut Tape) -> Option<&'static str> {
+pub fn inject_kind_error(prog: &mut Program, t: &mut Tape) -> Option<&'static str> {
     #[derive(Clone, Copy)]
     enum Site {
         JoinOperand,
